@@ -17,8 +17,8 @@ pub fn def() -> CheckDef {
     CheckDef {
         id: "C06",
         level: "exploration",
-        runs_quick: 120_000,
-        runs_thorough: 2_500_000,
+        runs_quick: 800_000,
+        runs_thorough: 25_000_000,
         rule: "seeded apply/seek histories on BeltCtr and ks/set_block_pos histories on BeltCtrCore over the 16-byte harness cipher (width per call from {1,2,3,5,8}, so the parallel keystream path runs) or BelT itself; IVs incl. D(LE(2^128-k)) so that s wraps; start positions small, near 2^32, near 2^64 and far; seam trace: first block E(IV), keystream block i has cipher input LE(s0+i+1); output = input XOR that. distinct = distinct (front end, cipher, policy, op/form/offset-class sequence); non-trivial = >= 1 keystream byte",
         required_probes: &["s_wraps_2_128", "par_keystream_block", "seek_inside_block", "real_belt", "block_index_ge_2_32"],
         r#gen,
